@@ -95,11 +95,31 @@ def literal_mutants(code):
     return out
 
 
+def line_mutants(code):
+    """second wave: condition negation, statement deletion, compound-assignment flips"""
+    out = []
+    m = re.match(r"^(\s*(?:\} else )?if )(?!let )(.+) \{\s*$", code)
+    if m:
+        out.append((m.group(1) + "!(" + m.group(2) + ") {", "negate condition"))
+    st = code.strip()
+    if st.endswith(";") and not re.match(r"(let |return|use |pub |const |static |type |fn |break|continue|\}|//)", st) and "=>" not in st and not st.startswith("#") and st.count("(") == st.count(")"):
+        if re.match(r"[A-Za-z_][\w.\[\]]*\s*(\+=|-=|\|=|=)[^=]", st) or re.match(r"[A-Za-z_][\w.:]*\(.*\);$", st) or re.match(r"[a-z_][\w.]*\.[a-z_]+\(.*\);$", st):
+            out.append((code[: len(code) - len(code.lstrip())] + "{}", "delete statement"))
+    for (pat, rep) in [(r" \+= ", " -= "), (r" -= ", " += "), (r" \|= ", " &= ")]:
+        for mm in re.finditer(pat, code):
+            out.append((code[: mm.start()] + rep + code[mm.end():], "%s -> %s" % (pat.strip(), rep.strip())))
+    return out
+
+
 def candidates():
     c = []
     for f in FILES:
         for (i, l) in production_lines(f):
             code = l.split("//")[0]
+            if os.environ.get("AUTO_WAVE") == "2":
+                for (new, op) in line_mutants(code.rstrip()):
+                    c.append({"file": f, "line": i + 1, "old": l, "new": new, "op": op})
+                continue
             for (a, b, new, op) in literal_mutants(code):
                 c.append({"file": f, "line": i + 1, "old": l, "new": code[:a] + new + code[b:] + l[len(code):], "op": op})
             for (pat, rep) in OPS:
